@@ -144,6 +144,7 @@ func Load(repoDir, goarch string, overlay map[string][]byte) (*Engine, error) {
 	}
 	e.anchorLog = map[string]bool{}
 	e.override = map[string]*ssa.Function{}
+	e.resolveFields()
 	e.resolveRoles()
 	sort.Slice(e.ModFuncs, func(i, j int) bool {
 		a, b := e.ModFuncs[i], e.ModFuncs[j]
@@ -554,5 +555,97 @@ func (e *Engine) dumpRoles(path string) error {
 		roles = append(roles, roleFP{parts[0], parts[1], sig, callees})
 	}
 	data, _ := json.MarshalIndent(roles, "", " ")
+	fdata, _ := json.MarshalIndent(e.structFields(), "", " ")
+	if err := os.WriteFile(filepath.Join(filepath.Dir(path), "fields.json"), fdata, 0o644); err != nil {
+		return err
+	}
 	return os.WriteFile(path, data, 0o644)
+}
+
+type fieldFP struct {
+	Type   string `json:"type"` // pkgpath.TypeName
+	Name   string `json:"name"`
+	Index  int    `json:"index"`
+	FType  string `json:"ftype"`
+	NField int    `json:"nfield"`
+}
+
+//go:embed fields.json
+var fieldsJSON []byte
+
+func (e *Engine) structFields() []fieldFP {
+	var out []fieldFP
+	for _, p := range e.Pkgs {
+		sc := p.Types.Scope()
+		for _, name := range sc.Names() {
+			tn, ok := sc.Lookup(name).(*types.TypeName)
+			if !ok {
+				continue
+			}
+			st, ok := tn.Type().Underlying().(*types.Struct)
+			if !ok {
+				continue
+			}
+			for i := 0; i < st.NumFields(); i++ {
+				out = append(out, fieldFP{p.PkgPath + "." + name, st.Field(i).Name(), i, types.TypeString(st.Field(i).Type(), typeQualifier), st.NumFields()})
+			}
+		}
+	}
+	return out
+}
+
+// resolveFields: a field the tables know that no longer exists under its name
+// is identified with the field at the same position (or the only other
+// unmatched field of the same type) of the same struct.
+func (e *Engine) resolveFields() {
+	var old []fieldFP
+	if len(fieldsJSON) == 0 || json.Unmarshal(fieldsJSON, &old) != nil {
+		return
+	}
+	cur := map[string][]fieldFP{}
+	for _, f := range e.structFields() {
+		cur[f.Type] = append(cur[f.Type], f)
+	}
+	oldBy := map[string][]fieldFP{}
+	for _, f := range old {
+		oldBy[f.Type] = append(oldBy[f.Type], f)
+	}
+	for typ, ofs := range oldBy {
+		cfs := cur[typ]
+		if len(cfs) == 0 {
+			continue
+		}
+		have := map[string]bool{}
+		for _, c := range cfs {
+			have[c.Name] = true
+		}
+		known := map[string]bool{}
+		for _, o := range ofs {
+			known[o.Name] = true
+		}
+		for _, o := range ofs {
+			if have[o.Name] {
+				continue
+			}
+			// candidates: current fields whose name is new, same type
+			var cands []fieldFP
+			for _, c := range cfs {
+				if !known[c.Name] && c.FType == o.FType {
+					cands = append(cands, c)
+				}
+			}
+			var pick *fieldFP
+			for i := range cands {
+				if cands[i].Index == o.Index {
+					pick = &cands[i]
+				}
+			}
+			if pick == nil && len(cands) == 1 {
+				pick = &cands[0]
+			}
+			if pick != nil {
+				canonFields[typ+"."+pick.Name] = o.Name
+			}
+		}
+	}
 }
